@@ -87,8 +87,8 @@ func init() {
 		Run: runLengthTaint,
 	})
 	register(&Rule{
-		ID: "C17.partial-constructors", Prop: "C17", Also: []string{"C15", "C16"}, Floor: 5, Controls: 0,
-		Doc: "decoder-reachable calls of constructors that panic on data-dependent conditions are guarded: ListVal/SetVal/MapVal by a dominating CanListVal/CanSetVal/CanMapVal exit, ObjectWithOptionalAttrs by a dominating check that every optional name is declared, refinement-builder mutators by a deferred recover that turns the panic into an error",
+		ID: "C17.partial-constructors", Prop: "C17", Also: []string{"C15", "C16", "C18"}, Floor: 5, Controls: 0,
+		Doc: "decoder-reachable calls (and those of gocty's to-cty direction) of constructors that panic on data-dependent conditions are guarded: ListVal/SetVal/MapVal by a dominating CanListVal/CanSetVal/CanMapVal exit, ObjectWithOptionalAttrs by a dominating check that every optional name is declared, refinement-builder mutators by a deferred recover that turns the panic into an error",
 		Run: runDecoderPartialCtors,
 	})
 	register(&Rule{
@@ -742,7 +742,15 @@ func runDecoderPartialCtors(rr *RuleRun) {
 			}
 		}
 	}
-	for _, r := range decoderFuncs(rr) {
+	funcs := decoderFuncs(rr)
+	// gocty's to-cty direction builds collections from caller-supplied Go data in the same way: a shape the bridge
+	// cannot represent must come back as an error, not as the constructor's panic
+	for _, fd := range c.SortedDecls("cty/gocty") {
+		if fd.Body != nil && strings.HasPrefix(fd.Name.Name, "toCty") && !c.IsControl(fd.Pos()) {
+			funcs = append(funcs, declRef{"cty/gocty", fd})
+		}
+	}
+	for _, r := range funcs {
 		info := c.Info(r.Pkg)
 		g := c.CFG(r.FD.Body, info)
 		hasRecover := false
